@@ -13,7 +13,7 @@ ID = "C15"
 LEVEL = "exploration"
 TECHNIQUE = "exhaustive request enumeration from app.url_map with status + state-fingerprint oracle under a controlled clock"
 RULE = ("every rule x method of the live url_map (HEAD included, automatic OPTIONS judged on 'serves nothing, changes nothing') x instance id in "
-        "{live, dead, malformed, externalised} x body in {well-formed superset body, none} x 18 credential shapes x server state in "
+        "{live, dead, malformed, externalised, ids that begin like the public resources (metrics, healthy-1, full-metrics)} x body in {well-formed superset body, none} x 18 credential shapes x server state in "
         "{no instances, live session, locked session, externalised instance}; control group: the same requests with the exact token must not "
         "be refused by the decorator, and the identical request repeated straight after it with 4 credential shapes is refused again. distinct_nontrivial = distinct (rule, method, credential class) triples refused on a server state in "
         "which the same request with the token is served (2xx).")
@@ -62,7 +62,9 @@ def build(state, tmp):
     app = srv.make_server(srv.bptk_factory(), state_dir=sd, token=TOKEN)
     c = app.test_client()
     H = {"Authorization": "Bearer " + TOKEN}
-    ids = {"dead": "0123456789abcdef0123456789abcdef", "malformed": "..%2F..%2Fetc", "weird": "a b"}
+    ids = {"dead": "0123456789abcdef0123456789abcdef", "malformed": "..%2F..%2Fetc", "weird": "a b",
+           # ids that begin like the public resources
+           "like-metrics": "metrics", "like-healthy": "healthy-1", "like-full-metrics": "full-metrics"}
     if state != "empty":
         iid = json.loads(c.post("/start-instance", json={"timeout": {"hours": 1}}, headers=H).get_data(as_text=True))["instance_uuid"]
         c.post("/%s/begin-session" % iid, json={"scenario_managers": [srv.MG], "scenarios": [srv.SC], "equations": list(srv.EQS)}, headers=H)
